@@ -134,9 +134,65 @@ func aliasSites(p *core.Program) []aliasSite {
 // a10Exceptions: reviewed sites, one symbol each.
 // keyed by package + the asserted operand's shape (method chain), not by function or variable names
 var a10Exceptions = map[string]string{
-	"pkg/namer :: Type().(*types.Named)":                                        "operand is the Type() of a *types.TypeName; only a defined generic type has its own type-parameter list to print, an alias TypeName is rendered through the *types.Alias arm of snippet.ID",
-	"devpkg/deepcopygen/helper :: Results().At(0).Type().(*types.Pointer)": "result type of a DeepCopy method spelled through an alias of a pointer type: outside the property's type domain (methods are generated or written with *T)",
-	"devpkg/deepcopygen/helper :: Params().At(0).Type().(*types.Pointer)":  "parameter type of a DeepCopyInto method spelled through an alias of a pointer type: outside the property's type domain",
+	"pkg/namer :: Type().(*types.Named)":                            "operand is the Type() of a *types.TypeName; only a defined generic type has its own type-parameter list to print, an alias TypeName is rendered through the *types.Alias arm of snippet.ID",
+	"devpkg/deepcopygen/helper :: Results().At().Type().(*types.Pointer)": "result type of a DeepCopy method spelled through an alias of a pointer type: outside the property's type domain (methods are generated or written with *T)",
+	"devpkg/deepcopygen/helper :: Params().At().Type().(*types.Pointer)":  "parameter type of a DeepCopyInto method spelled through an alias of a pointer type: outside the property's type domain",
+}
+
+// chainKey spells the method chain of an asserted operand by the names of its steps only: locals that are defined once
+// are replaced by their definition, arguments and the root variable are dropped -
+// `results := fn.Results(); results.At(0).Type().(*types.Pointer)` is `...Results().At().Type().(*types.Pointer)`.
+// An exception names the *end* of such a chain (how the signature was obtained does not matter).
+func chainKey(f *core.Func, e ast.Expr, depth int) string {
+	info := f.Info()
+	if depth > 12 {
+		return ""
+	}
+	switch x := ast.Unparen(e).(type) {
+	case *ast.TypeAssertExpr:
+		if x.Type == nil {
+			return chainKey(f, x.X, depth+1) + ".(type)"
+		}
+		return chainKey(f, x.X, depth+1) + ".(" + types.ExprString(x.Type) + ")"
+	case *ast.CallExpr:
+		if sel, ok := ast.Unparen(x.Fun).(*ast.SelectorExpr); ok {
+			if _, isPkg := info.ObjectOf(identOf(sel.X)).(*types.PkgName); isPkg && identOf(sel.X) != nil {
+				return sel.Sel.Name + "()"
+			}
+			return chainKey(f, sel.X, depth+1) + "." + sel.Sel.Name + "()"
+		}
+		return types.ExprString(x.Fun) + "()"
+	case *ast.SelectorExpr:
+		return chainKey(f, x.X, depth+1) + "." + x.Sel.Name
+	case *ast.IndexExpr:
+		return chainKey(f, x.X, depth+1) + "[]"
+	case *ast.Ident:
+		if v := core.VarOf(info, x); v != nil {
+			if d, ok := core.SingleDef(info, f.Root().Body, v); ok && d.Index < 0 && d.Rhs != nil {
+				if _, isIdent := ast.Unparen(d.Rhs).(*ast.Ident); !isIdent {
+					return chainKey(f, d.Rhs, depth+1)
+				}
+			}
+		}
+		return ""
+	}
+	return ""
+}
+
+func a10Exception(f *core.Func, node ast.Node) (string, bool) {
+	ta, ok := node.(*ast.TypeAssertExpr)
+	if !ok {
+		return "", false
+	}
+	chain := strings.TrimPrefix(chainKey(f, ta, 0), ".")
+	rel := core.RelPkg(f.Pkg.PkgPath)
+	for k, reason := range a10Exceptions {
+		pkg, suffix, _ := strings.Cut(k, " :: ")
+		if pkg == rel && (chain == suffix || strings.HasSuffix(chain, "."+suffix)) {
+			return reason, true
+		}
+	}
+	return "", false
 }
 
 // chainShape drops the leading variable of a method chain: fn.Results().At(0).Type().(*types.Pointer) -> Results().At(0).Type().(*types.Pointer)
@@ -169,10 +225,9 @@ func a10Report(p *core.Program, r *core.Report, rule string, rels ...string) int
 		case *ast.TypeAssertExpr:
 			construct = core.ExprStr(x)
 		}
-		key := core.RelPkg(s.F.Pkg.PkgPath) + " :: " + chainShape(construct)
 		if s.Protected {
 			r.OK(rule, s.F, construct, s.Node.Pos(), "looks through aliases: "+s.How)
-		} else if reason, ok := a10Exceptions[key]; ok {
+		} else if reason, ok := a10Exception(s.F, s.Node); ok {
 			r.ReviewedOK(rule, s.F, construct, s.Node.Pos(), reason)
 		} else {
 			r.Bad(rule, s.F, construct, s.Node.Pos(), "the operand is a go/types.Type that may be a *types.Alias (gotypesalias=1): the concrete-kind arm(s) are skipped for a type declared through an alias; use types.Unalias / Underlying or add a *types.Alias arm")
@@ -180,3 +235,4 @@ func a10Report(p *core.Program, r *core.Report, rule string, rels ...string) int
 	}
 	return n
 }
+
